@@ -2,6 +2,8 @@ package kvmodel
 
 import (
 	"context"
+	"errors"
+	"sync/atomic"
 	"testing/synctest"
 	"time"
 
@@ -9,6 +11,7 @@ import (
 	"github.com/acquirecloud/golibs/kvs/inmem"
 	gredis "github.com/acquirecloud/golibs/kvs/redis"
 	"github.com/alicebob/miniredis/v2"
+	"github.com/alicebob/miniredis/v2/server"
 	"github.com/go-redis/redis/v8"
 )
 
@@ -19,7 +22,8 @@ func InmemBubble() *Backend {
 		Name:    "inmem",
 		S:       s,
 		Now:     time.Now,
-		Advance: func(n int) { time.Sleep(time.Duration(n) * Unit) },
+		Unit:    BubbleUnit,
+		Advance: func(n int) { time.Sleep(time.Duration(n) * BubbleUnit) },
 		RunWait: func(key, ver string) (error, bool) {
 			ctx, cancel := context.WithCancel(context.Background())
 			defer cancel()
@@ -39,36 +43,62 @@ func InmemBubble() *Backend {
 	}
 }
 
+// ErrWatchdog is returned by RunWait when neither "returned" nor "parked" could be established (inconclusive).
+var ErrWatchdog = errors.New("harness watchdog: the wait neither returned nor was seen parked")
+
 // InmemPlain returns a fresh in-memory store on the real clock (no Advance).
 func InmemPlain() *Backend {
 	s := inmem.New()
 	return &Backend{
 		Name:    "inmem",
 		S:       s,
+		Unit:    Unit,
 		Now:     time.Now,
 		Advance: func(n int) { panic("no clock control on the plain in-memory backend") },
-		RunWait: realWait(s),
-	}
-}
-
-func realWait(s kvs.Storage) func(key, ver string) (error, bool) {
-	return func(key, ver string) (error, bool) {
-		// The model only issues waits that must return at once; the deadline is a watchdog whose
-		// firing means "parked" (healthy: microseconds; broken: never).
-		ctx, cancel := context.WithTimeout(context.Background(), 5*time.Second)
-		defer cancel()
-		err := s.WaitForVersionChange(ctx, key, ver)
-		if err != nil && ctx.Err() != nil {
-			return nil, false
-		}
-		return err, true
+		RunWait: func(key, ver string) (error, bool) {
+			// the model only issues waits that must return at once; "parked" is decided logically: the
+			// waiter table (hook) shows the waiter registered. No deadline decides.
+			ctx, cancel := context.WithCancel(context.Background())
+			defer cancel()
+			ch := make(chan error, 1)
+			go func() { ch <- s.WaitForVersionChange(ctx, key, ver) }()
+			t0 := time.Now()
+			for {
+				select {
+				case err := <-ch:
+					return err, true
+				case <-time.After(200 * time.Microsecond):
+				}
+				if inmem.VerifWaiters(s)[key] > 0 {
+					cancel()
+					<-ch
+					return nil, false
+				}
+				if time.Since(t0) > 120*time.Second {
+					cancel()
+					<-ch
+					return ErrWatchdog, true
+				}
+			}
+		},
 	}
 }
 
 // RedisServer is one miniredis instance with a client of the backend under test.
 type RedisServer struct {
-	MR *miniredis.Miniredis
-	S  kvs.Storage
+	MR   *miniredis.Miniredis
+	S    kvs.Storage
+	Gets atomic.Int64 // GET commands that reached the server (default pre-hook)
+}
+
+// InstallDefaultHook (re)installs the pre-hook that counts GET commands.
+func (rs *RedisServer) InstallDefaultHook() {
+	rs.MR.Server().SetPreHook(func(_ *server.Peer, cmd string, _ ...string) bool {
+		if cmd == "GET" {
+			rs.Gets.Add(1)
+		}
+		return false
+	})
 }
 
 func NewRedisServer() (*RedisServer, error) {
@@ -77,7 +107,9 @@ func NewRedisServer() (*RedisServer, error) {
 		return nil, err
 	}
 	s := gredis.New(&redis.Options{Addr: mr.Addr()})
-	return &RedisServer{MR: mr, S: s}, nil
+	rs := &RedisServer{MR: mr, S: s}
+	rs.InstallDefaultHook()
+	return rs, nil
 }
 
 func (rs *RedisServer) Close() {
@@ -95,7 +127,41 @@ func (rs *RedisServer) Backend() *Backend {
 		Name:    "redis",
 		S:       rs.S,
 		Now:     time.Now,
+		Unit:    Unit,
 		Advance: func(n int) { rs.MR.FastForward(time.Duration(n) * Unit) },
-		RunWait: realWait(rs.S),
+		RunWait: func(key, ver string) (error, bool) {
+			// the backend polls: "parked" = three polls reached the server after the call started and it has
+			// still not returned (logical steps, counted by the pre-hook). No deadline decides.
+			ctx, cancel := context.WithCancel(context.Background())
+			defer cancel()
+			start := rs.Gets.Load()
+			ch := make(chan error, 1)
+			go func() { ch <- rs.S.WaitForVersionChange(ctx, key, ver) }()
+			t0 := time.Now()
+			for {
+				select {
+				case err := <-ch:
+					return err, true
+				case <-time.After(500 * time.Microsecond):
+				}
+				if rs.Gets.Load()-start >= 3 {
+					select { // the reply of the last poll may be on its way
+					case err := <-ch:
+						return err, true
+					case <-time.After(50 * time.Millisecond):
+					}
+					if rs.Gets.Load()-start >= 4 {
+						cancel()
+						<-ch
+						return nil, false
+					}
+				}
+				if time.Since(t0) > 120*time.Second {
+					cancel()
+					<-ch
+					return ErrWatchdog, true
+				}
+			}
+		},
 	}
 }
